@@ -80,11 +80,16 @@ fn perturbations(l: &mut Local, z: &ZoneSpec, rng: &mut Rng) -> u64 {
         if pos == "last" {
             p.rule = None; // keep it a single defect (the rule clause looks at the last transition's type)
         }
-        judge(l, &p, match pos {
-            "first" => "index_out_of_range/first",
-            "last" => "index_out_of_range/last",
-            _ => "index_out_of_range/middle",
-        }, Some(E::InvalidLocalTimeTypeIndex));
+        judge(
+            l,
+            &p,
+            match pos {
+                "first" => "index_out_of_range/first",
+                "last" => "index_out_of_range/last",
+                _ => "index_out_of_range/middle",
+            },
+            Some(E::InvalidLocalTimeTypeIndex),
+        );
         n += 1;
     }
     // two equal / two inverted times
@@ -191,42 +196,54 @@ fn perturbations(l: &mut Local, z: &ZoneSpec, rng: &mut Rng) -> u64 {
             ("rule_vs_last_type_designation_absent", Box::new(|t: &mut TypeSpec| t.desig = if t.desig.is_some() { None } else { Some("ZZZ".into()) })),
             // near-equal designations: a strict prefix of the rule's, the rule's plus one character, the last character
             // changed, the case of one letter changed (a comparison over a common length or a packed word would agree)
-            ("rule_vs_last_type_designation_prefix", Box::new(|t: &mut TypeSpec| {
-                t.desig = match t.desig.as_deref() {
-                    Some(d) if d.len() > 3 => Some(d[..d.len() - 1].to_string()),
-                    Some(d) => Some(format!("{}X", d)),
-                    None => Some("ZZZ".into()),
-                }
-            })),
-            ("rule_vs_last_type_designation_extended", Box::new(|t: &mut TypeSpec| {
-                t.desig = match t.desig.as_deref() {
-                    Some(d) if d.len() < 7 => Some(format!("{}0", d)),
-                    Some(d) => Some(d[..d.len() - 1].to_string()),
-                    None => Some("ZZZ".into()),
-                }
-            })),
-            ("rule_vs_last_type_designation_last_character", Box::new(|t: &mut TypeSpec| {
-                t.desig = match t.desig.as_deref() {
-                    Some(d) => {
-                        let mut b = d.as_bytes().to_vec();
-                        let k = b.len() - 1;
-                        b[k] = if b[k] == b'Q' { b'R' } else { b'Q' };
-                        Some(String::from_utf8(b).unwrap())
+            (
+                "rule_vs_last_type_designation_prefix",
+                Box::new(|t: &mut TypeSpec| {
+                    t.desig = match t.desig.as_deref() {
+                        Some(d) if d.len() > 3 => Some(d[..d.len() - 1].to_string()),
+                        Some(d) => Some(format!("{}X", d)),
+                        None => Some("ZZZ".into()),
                     }
-                    None => Some("ZZZ".into()),
-                }
-            })),
-            ("rule_vs_last_type_designation_case", Box::new(|t: &mut TypeSpec| {
-                t.desig = match t.desig.as_deref() {
-                    Some(d) if d.bytes().any(|c| c.is_ascii_alphabetic()) => {
-                        let mut b = d.as_bytes().to_vec();
-                        let k = b.iter().position(|c| c.is_ascii_alphabetic()).unwrap();
-                        b[k] ^= 0x20;
-                        Some(String::from_utf8(b).unwrap())
+                }),
+            ),
+            (
+                "rule_vs_last_type_designation_extended",
+                Box::new(|t: &mut TypeSpec| {
+                    t.desig = match t.desig.as_deref() {
+                        Some(d) if d.len() < 7 => Some(format!("{}0", d)),
+                        Some(d) => Some(d[..d.len() - 1].to_string()),
+                        None => Some("ZZZ".into()),
                     }
-                    _ => Some("ZZZ".into()),
-                }
-            })),
+                }),
+            ),
+            (
+                "rule_vs_last_type_designation_last_character",
+                Box::new(|t: &mut TypeSpec| {
+                    t.desig = match t.desig.as_deref() {
+                        Some(d) => {
+                            let mut b = d.as_bytes().to_vec();
+                            let k = b.len() - 1;
+                            b[k] = if b[k] == b'Q' { b'R' } else { b'Q' };
+                            Some(String::from_utf8(b).unwrap())
+                        }
+                        None => Some("ZZZ".into()),
+                    }
+                }),
+            ),
+            (
+                "rule_vs_last_type_designation_case",
+                Box::new(|t: &mut TypeSpec| {
+                    t.desig = match t.desig.as_deref() {
+                        Some(d) if d.bytes().any(|c| c.is_ascii_alphabetic()) => {
+                            let mut b = d.as_bytes().to_vec();
+                            let k = b.iter().position(|c| c.is_ascii_alphabetic()).unwrap();
+                            b[k] ^= 0x20;
+                            Some(String::from_utf8(b).unwrap())
+                        }
+                        _ => Some("ZZZ".into()),
+                    }
+                }),
+            ),
         ] {
             let mut p = z.clone();
             // give the last transition a private copy of its type so that nothing else changes
@@ -335,6 +352,12 @@ fn gen_garbage(rng: &mut Rng) -> ZoneSpec {
         _ => Some(RuleSpec::Alt(crate::gen::rule::gen_interleaving(rng).0)),
     };
     ZoneSpec { transitions, types, leaps: LeapTable(leaps), rule }
+}
+
+/// one base zone and all its single-defect perturbations (libFuzzer target `model`)
+pub fn fuzz_case(l: &mut Local, z: &ZoneSpec, rng: &mut Rng) {
+    judge(l, z, "valid_by_construction", None);
+    perturbations(l, z, rng);
 }
 
 pub fn run(ctx: &Ctx) -> Report {
@@ -510,18 +533,24 @@ pub fn run(ctx: &Ctx) -> Report {
         for (name, f) in [
             ("junction_zone_first_correction_2", Box::new(|t: &mut Vec<(i64, i32)>| t[0].1 *= 2) as Box<dyn Fn(&mut Vec<(i64, i32)>)>),
             ("junction_zone_first_correction_0", Box::new(|t: &mut Vec<(i64, i32)>| t[0].1 = 0)),
-            ("junction_zone_step_0", Box::new(|t: &mut Vec<(i64, i32)>| {
-                let k = t.len() - 1;
-                if k > 0 {
-                    t[k].1 = t[k - 1].1
-                } else {
-                    t[0].1 = -2 * t[0].1
-                }
-            })),
-            ("junction_zone_step_2", Box::new(|t: &mut Vec<(i64, i32)>| {
-                let k = t.len() - 1;
-                t[k].1 += if t[k].1 > 0 { 1 } else { -1 };
-            })),
+            (
+                "junction_zone_step_0",
+                Box::new(|t: &mut Vec<(i64, i32)>| {
+                    let k = t.len() - 1;
+                    if k > 0 {
+                        t[k].1 = t[k - 1].1
+                    } else {
+                        t[0].1 = -2 * t[0].1
+                    }
+                }),
+            ),
+            (
+                "junction_zone_step_2",
+                Box::new(|t: &mut Vec<(i64, i32)>| {
+                    let k = t.len() - 1;
+                    t[k].1 += if t[k].1 > 0 { 1 } else { -1 };
+                }),
+            ),
         ] {
             let mut p = z.clone();
             f(&mut p.leaps.0);
